@@ -282,18 +282,33 @@ Definition world_before_pre (s : scenario) (k : nat) : world :=
 Lemma skipn_nth {A} (d : A) : forall k l, (k < length l)%nat -> skipn k l = nth k l d :: skipn (S k) l.
 Proof. induction k; intros [|t l] Hk; cbn in *; try lia; [reflexivity|apply IHk; lia]. Qed.
 
-Lemma between_before_pre s k : valid s = true -> exists T a, Between (s_pre s) (world_before_pre s k) T a.
+(* the statements executed before the pre-action of test k, after the plugin was created *)
+Definition text_before (s : scenario) (k : nat) : list stmt :=
+  flat_text (firstn k (s_tests s)) ++ t_before (nth k (s_tests s) no_test).
+
+Lemma between_before_pre s k : valid s = true -> exists a, Between (s_pre s) (world_before_pre s k) (text_before s k) a.
 Proof.
   intros HV. apply valid_trace_of in HV. rewrite trace_text in HV.
   rewrite <- (firstn_skipn k (s_tests s)) in HV. unfold flat_text in HV. rewrite flat_map_app, <- app_assoc in HV.
   destruct (between_init _ _ HV) as (a0 & HB0 & HV0).
   destruct (all_tests _ (firstn k (s_tests s)) _ [] _ _ HB0 HV0) as (a1 & HB1 & HV1 & _).
-  cbn [app] in *. unfold world_before_pre.
+  cbn [app] in *. unfold world_before_pre, text_before.
   destruct (Nat.lt_ge_cases k (length (s_tests s))) as [Hk|Hk].
   - rewrite (skipn_nth no_test k _ Hk) in HV1. cbn [flat_map] in HV1. unfold text_of at 1 in HV1. rewrite <- !app_assoc in HV1.
     destruct (outside_ops _ _ _ _ _ _ HB1 HV1) as (a2 & HB2 & _). eauto.
-  - rewrite (nth_overflow _ _ Hk). cbn [t_before no_test fold_left].
+  - rewrite (nth_overflow _ _ Hk). cbn [t_before no_test fold_left]. rewrite app_nil_r.
     destruct (fst (run_tests _ (firstn k (s_tests s)))) eqn:Ew. unfold with_det. cbn. eauto.
+Qed.
+
+(* the table holds exactly the records the text defines: one per block obtained and not released so far; those obtained
+   since the plugin exists are stamped `enabled`, the older ones `disabled` *)
+Lemma table_is_text s k : valid s = true ->
+  let d := w_det (world_before_pre s k) in
+  Inv (d_tbl d) /\ Permutation (flat (d_tbl d)) (pure_recs (s_pre s) (text_before s k)) /\
+  d_seq d = 1 + allocs (s_pre s) + allocs (text_before s k).
+Proof.
+  intros HV d. destruct (between_before_pre s k HV) as (a & [HR Hrecs Hp Hs Hq Hi He Hx]). fold d in HR.
+  destruct HR as (HI & HP & _ & _ & E). rewrite <- Hrecs, <- Hq. auto.
 Qed.
 
 Lemma inv_no_checking_between_tests s k : valid s = true ->
@@ -301,7 +316,7 @@ Lemma inv_no_checking_between_tests s k : valid s = true ->
   Forall (fun n => n_period n <> SChecking) (flat (d_tbl (w_det w))) /\
   d_period (w_det w) = SEnabled /\ t_total PChecking (d_tbl (w_det w)) = 0.
 Proof.
-  intros HV w. destruct (between_before_pre s k HV) as (T & a & [HR Hrecs Hp Hs Hq Hi He Hx]). fold w in HR.
+  intros HV w. destruct (between_before_pre s k HV) as (a & [HR Hrecs Hp Hs Hq Hi He Hx]). fold w in HR.
   pose proof HR as (HI & HP & E1 & _).
   assert (HF : Forall (fun n => n_period n <> SChecking) (flat (d_tbl (w_det w)))).
   { apply Forall_forall. intros n Hn. eapply pure_not_checking. rewrite <- Hrecs. eapply Permutation_in; eassumption. }
@@ -312,7 +327,7 @@ Qed.
 
 Lemma flags_reset s k : valid s = true ->
   let w := world_before_pre s k in w_ignore w = false /\ w_expected w = 0 /\ w_err w = false.
-Proof. intros HV w. destruct (between_before_pre s k HV) as (T & a & [HR Hrecs Hp Hs Hq Hi He Hx]). auto. Qed.
+Proof. intros HV w. destruct (between_before_pre s k HV) as (a & [HR Hrecs Hp Hs Hq Hi He Hx]). auto. Qed.
 
 Lemma final_report_exact s : valid s = true -> final_good s (run s).
 Proof. intros HV. apply (run_good s HV). Qed.
